@@ -97,6 +97,7 @@ class Exec:
         self.timers_fired = 0
         self.log = []
         self.on_point = None
+        self.on_timer = None
 
     def time(self):
         self.clock += 1.0
@@ -114,6 +115,8 @@ class Exec:
                 self.clock = max(self.clock, w.deadline)
                 w.timed_out = True
                 self.timers_fired += 1
+                if self.on_timer is not None:
+                    self.on_timer(self, w)
                 en = [w.tid]
             elif all(v.done for v in self.vts.values()):
                 return None
@@ -164,7 +167,7 @@ class VT:
         self.deadline = None
         self.timed_out = False
         self.in_cb = False
-        self.th = _th.Thread(target=self._run, daemon=True)
+        self.worker = None
 
     def runnable(self):
         if self.done:
@@ -174,7 +177,6 @@ class VT:
         return self.timed_out or self.cond()
 
     def _run(self):
-        _current[_th.get_ident()] = self
         try:
             self.sem.acquire()
             if self.ex.aborted:
@@ -205,7 +207,7 @@ class VT:
                     else:
                         ex.vts[nxt].sem.release()
         finally:
-            _current.pop(_th.get_ident(), None)
+            pass
 
     def point(self):
         ex = self.ex
@@ -241,6 +243,50 @@ class VT:
             self.cond = None
             self.deadline = None
             self.in_cb = was
+
+
+class Worker:
+    """a reusable OS thread; one VT body per job (thread start/join per
+    execution is the dominant cost on a loaded machine)"""
+
+    def __init__(self):
+        self.job = _th.Semaphore(0)
+        self.done = _th.Semaphore(0)
+        self.vt = None
+        self.th = _th.Thread(target=self._loop, daemon=True)
+        self.th.start()
+
+    def _loop(self):
+        ident = _th.get_ident()
+        while True:
+            self.job.acquire()
+            vt = self.vt
+            if vt is None:
+                return
+            _current[ident] = vt
+            try:
+                vt._run()
+            finally:
+                _current.pop(ident, None)
+                self.vt = None
+                self.done.release()
+
+    def start(self, vt):
+        self.vt = vt
+        vt.worker = self
+        self.job.release()
+
+    def wait(self, timeout):
+        return self.done.acquire(timeout=timeout)
+
+
+_workers = []
+
+
+def _get_workers(n):
+    while len(_workers) < n:
+        _workers.append(Worker())
+    return _workers[:n]
 
 
 # ---- cooperative primitives -------------------------------------------------
@@ -494,10 +540,12 @@ def run_once(harness, prefix, model):
     try:
         ctx = harness.setup(ex)
         ex.on_point = getattr(harness, "on_point", None) and (lambda e: harness.on_point(e, ctx))
+        ex.on_timer = getattr(harness, "on_timer", None) and (lambda e, w: harness.on_timer(e, ctx, w))
         for i, b in enumerate(harness.bodies):
             ex.vts[i] = VT(ex, i, (lambda b=b, i=i: b(ctx, i)))
-        for vt in ex.vts.values():
-            vt.th.start()
+        workers = _get_workers(len(ex.vts))
+        for vt, w in zip(ex.vts.values(), workers):
+            w.start(vt)
         try:
             first = ex.choose(None)
         except Deadlock:
@@ -511,9 +559,9 @@ def run_once(harness, prefix, model):
             for vt in ex.vts.values():
                 vt.sem.release()
         for vt in ex.vts.values():
-            vt.th.join(5)
-            if vt.th.is_alive():
+            if not vt.worker.wait(600):
                 ex.log.append(("thread-stuck", vt.tid))
+                _workers.remove(vt.worker)  # abandon it; a fresh worker is created next time
     finally:
         _active["ex"] = None
     return ex, ctx
@@ -527,6 +575,10 @@ def explore(harness, model, bound, rec, label, max_execs=None):
     stats = dict(execs=0, max_points=0, min_points=None, violations=[], horizon=0, divergence=0)
     try:
         with Patches(harness.patches(model)):
+            # warm-up: the first execution in a process runs lazy initialisers / memoizations of
+            # the library (extra scheduling points); discard it so that replayed prefixes see a
+            # steady state and schedule counts do not depend on what the process ran before
+            run_once(harness, [], model)
             stack = [[]]
             while stack:
                 prefix = stack.pop()
